@@ -65,27 +65,32 @@ int ed_upk(ed_t r, const ed_t p) {
 		fp_sub(t, t, core_get()->ed_a);
 		fp_inv(t, t);
 		fp_mul(u, u, t);
-		fp_srt(u, u);
+		/* There is no point with this y-coordinate if the quotient has no
+		 * square root. */
+		result = fp_srt(u, u);
 
-		fp_norm(u, u);
-		fp_norm(r->x, p->x);
+		if (result) {
+			fp_norm(u, u);
+			fp_norm(r->x, p->x);
 
-		if (fp_get_bit(u, 0) != fp_get_bit(r->x, 0)) {
-			fp_neg(u, u);
-		}
-		fp_copy(r->x, u);
+			if (fp_get_bit(u, 0) != fp_get_bit(r->x, 0)) {
+				fp_neg(u, u);
+			}
+			fp_copy(r->x, u);
 
 #if ED_ADD == EXTND
-		fp_mul(r->t, r->x, r->y);
+			fp_mul(r->t, r->x, r->y);
 #endif
-		fp_set_dig(r->z, 1);
-		r->coord = BASIC;
+			fp_set_dig(r->z, 1);
+			r->coord = BASIC;
+		}
 	}
 	RLC_CATCH_ANY {
 		RLC_THROW(ERR_CAUGHT);
 	}
 	RLC_FINALLY {
 		fp_free(t);
+		fp_free(u);
 	}
 	return result;
 }
